@@ -245,3 +245,42 @@ def short_style_omits_exactly_the_settings_at_default(a: int, b: int, style: int
     assert [s.name for s in data.keys()] == want, "short: exactly the settings off default; medium: plus those the user had written; full: all - in name order"
     for s in data.keys():
         assert data[s] == {"value": cs[s.name]}, "with their current values"
+
+
+# ----------------------------------------------------------------------------- nested values (cycle history): copies are deep
+class AnyValue:
+    """a custom schema that admits every value unchanged (stand-in for the voluptuous schema of the nested `cycles` setting)"""
+
+    def __call__(self, v):
+        return v
+
+
+def nested_settings(n0, n1, d0):
+    defs = definitions()
+    defs["cycles"] = Setting("cycles", [], "detailed cycle history", schema=AnyValue())
+    cs = new(Settings, _Settings__settings=defs, path="", _failOnLoad=False, filelessBP=False)
+    cs["cycles"] = [{"name": "startup", "cumulative days": [1, 2, d0], "burn steps": n0}, {"cycle length": 10, "burn steps": n1}]
+    return cs
+
+
+@lemma(overrides=OV, stubs={"armi:getApp": "app_contract"}, gen={"n0": (1, 9), "n1": (1, 9), "d0": (3, 30), "e": (31, 60)})
+def copies_of_a_nested_setting_value_do_not_alias_the_original(n0: int, n1: int, d0: int, e: int):
+    """a setting holding a NESTED value (the cycle history: a list of dicts holding lists): the Setting handed out by
+    getSetting, and a Settings copy made from it by modified(newSettings={name: settingObject}), share no inner container
+    with the original - editing the innermost list / dict of one never shows in the other"""
+    cs = nested_settings(n0, n1, d0)
+    s = cs.getSetting("cycles")
+    assert s.value == cs["cycles"], "the copy carries an equal value"
+    s.value[0]["cumulative days"].append(e)
+    s.value[1]["burn steps"] = n1 + 1
+    assert cs["cycles"][0]["cumulative days"] == [1, 2, d0] and cs["cycles"][1]["burn steps"] == n1, "editing the handed-out copy does not reach the original"
+    cp = cs.modified(newSettings={"cycles": cs.getSetting("cycles")})
+    cp["cycles"][0]["cumulative days"].append(e)
+    cp["cycles"][1]["burn steps"] = n1 + 2
+    cp["cycles"].append({"cycle length": 1})
+    assert len(cs["cycles"]) == 2 and cs["cycles"][0]["cumulative days"] == [1, 2, d0] and cs["cycles"][1]["burn steps"] == n1, "nor does editing a modified copy"
+    dup = cs.duplicate()
+    dup["cycles"][0]["burn steps"] = n0 + 1
+    assert cs["cycles"][0]["burn steps"] == n0 and dup["cycles"][0]["burn steps"] == n0 + 1, "nor a duplicate"
+    cs["cycles"][0]["name"] = "changed"
+    assert cp["cycles"][0]["name"] == "startup" and dup["cycles"][0]["name"] == "startup" and s.value[0]["name"] == "startup", "nor the other way round"
